@@ -213,6 +213,19 @@ impl<I: Iterator + ExactSizeIterator> Iterator for LyingIter<I> {
     }
 }
 
+/// A formatter sink that allocates nothing (Debug impls are run for their side effects only).
+pub struct Sink;
+impl std::fmt::Write for Sink {
+    fn write_str(&mut self, _s: &str) -> std::fmt::Result {
+        Ok(())
+    }
+}
+
+pub fn debug_to_sink<T: std::fmt::Debug>(x: &T) {
+    use std::fmt::Write;
+    let _ = write!(Sink, "{:?}", x);
+}
+
 pub fn pred_mask(seed: u64, pct: u8, kv: u32) -> bool {
     (splitmix64(seed ^ (kv as u64).wrapping_mul(0x9E37_79B9)) % 100) < pct as u64
 }
